@@ -106,7 +106,7 @@ theorem group_members (spec : AggSpec) (x r : DS) (h : aggr spec x = .ok r) :
 
 /-- **order independence of aggregation** (plug-in lemma for `C33.evalD_perm`): permuting the datapoints of
 the operand permutes the datapoints of the result (and preserves failure). -/
-theorem aggr_perm (spec : AggSpec) (x y : DS) (_ : x.WF) (h : DSEquiv x y) :
+theorem aggr_perm_any (spec : AggSpec) (x y : DS) (h : DSEquiv x y) :
     Rel2 DSEquiv (aggr spec x) (aggr spec y) := by
   obtain ⟨hi, hm, hp⟩ := h
   have hg : groupIds spec.grouping y = groupIds spec.grouping x := by unfold groupIds; rw [hi]
@@ -127,13 +127,93 @@ theorem aggr_perm (spec : AggSpec) (x y : DS) (_ : x.WF) (h : DSEquiv x y) :
       exact Rel2.trans_eq (mapRows_perm _ (keyRows_perm gids hp))
         (mapRows_rel_eq _ _ _ (fun a _ => groupRow_perm x.meas gids items spec.having hp a))
 
+/-- plug-in lemma for `C33.evalD_perm` (unique keys are not even needed). -/
+theorem aggr_perm (spec : AggSpec) (x y : DS) (_ : x.WF) (h : DSEquiv x y) :
+    Rel2 DSEquiv (aggr spec x) (aggr spec y) := aggr_perm_any spec x y h
+
+/-! ### `group all time_agg("A")`: the time identifier is converted, then all identifiers group -/
+
+/-- for `group by / group except / no grouping` the time conversion is the identity. -/
+theorem aggrT_eq (spec : AggSpec) (hg : ∀ tid, spec.grouping ≠ .all tid) (d : DS) : aggrT spec d = aggr spec d := by
+  unfold aggrT timeConv
+  cases hs : spec.grouping with
+  | all tid => exact absurd hs (hg tid)
+  | _ => rfl
+
+theorem timeConv_ok (g : Grouping) (d d' : DS) (h : timeConv g d = .ok d') :
+    d'.ids = d.ids ∧ d'.meas = d.meas ∧
+      (d'.rows = d.rows ∨ ∃ tid, g = .all tid ∧ tid ∈ d.ids ∧ d'.rows = d.rows.map (convRow tid)) := by
+  unfold timeConv at h
+  cases g with
+  | all tid =>
+    simp only at h
+    split at h
+    · rename_i hc
+      cases h
+      exact ⟨rfl, rfl, Or.inr ⟨tid, rfl, by simpa using hc, rfl⟩⟩
+    · cases h
+  | _ => cases h; exact ⟨rfl, rfl, Or.inl rfl⟩
+
+/-- `aggrT` (every grouping form) keeps identifier keys unique … -/
+theorem aggrT_WF (spec : AggSpec) (x r : DS) (_ : x.WF) (h : aggrT spec x = .ok r) : r.WF := by
+  unfold aggrT at h
+  obtain ⟨x', _, h⟩ := (bindOk _ _ _).1 h
+  exact groups_nodup spec x' r h
+
+/-- … and is independent of the physical order of the operand's datapoints. -/
+theorem aggrT_perm (spec : AggSpec) (x y : DS) (_ : x.WF) (h : DSEquiv x y) :
+    Rel2 DSEquiv (aggrT spec x) (aggrT spec y) := by
+  unfold aggrT
+  refine Rel2.bind (P := DSEquiv) ?_ (fun a b hab => aggr_perm_any spec a b hab)
+  unfold timeConv
+  cases spec.grouping with
+  | all tid =>
+    simp only [h.1]
+    split
+    · exact Rel2.pure ⟨rfl, h.2.1, h.2.2.map _⟩
+    · exact Rel2.error _ _
+  | _ => exact Rel2.pure h
+
+/-- **`group all time_agg("A")`**: the result has one datapoint per distinct key of the CONVERTED datapoints
+(all identifiers, the time identifier replaced by its year), and no other. -/
+theorem group_all_cover (spec : AggSpec) (tid : String) (x r : DS) (hg : spec.grouping = .all tid)
+    (hh : spec.having = none) (h : aggrT spec x = .ok r) (k : List Value) :
+    r.ids = x.ids ∧ (k ∈ r.keys ↔ ∃ row ∈ x.rows, (convRow tid row).key x.ids = k) := by
+  unfold aggrT at h
+  obtain ⟨x', hx', h⟩ := (bindOk _ _ _).1 h
+  obtain ⟨hi, _, hrows⟩ := timeConv_ok _ _ _ hx'
+  have hrows' : x'.rows = x.rows.map (convRow tid) := by
+    rcases hrows with hr | ⟨t, ht, _, hr⟩
+    · rw [hg] at hx'
+      unfold timeConv at hx'
+      simp only at hx'
+      split at hx'
+      · cases hx'; rfl
+      · cases hx'
+    · rw [hg] at ht; cases ht; exact hr
+  have hids : r.ids = x.ids := by
+    obtain ⟨gids, items, rows, hgi, _, _, _, _, rfl⟩ := aggr_ok spec x' r h
+    rw [hg] at hgi
+    simp only [groupIds, Except.ok.injEq] at hgi
+    rw [← hgi, hi]
+  refine ⟨hids, ?_⟩
+  rw [groups_cover spec x' r h hh k, hrows', hids]
+  constructor
+  · rintro ⟨row, hrow, hk⟩
+    obtain ⟨r0, hr0, rfl⟩ := List.mem_map.1 hrow
+    exact ⟨r0, hr0, hk⟩
+  · rintro ⟨r0, hr0, hk⟩
+    exact ⟨convRow tid r0, List.mem_map.2 ⟨r0, hr0, rfl⟩, hk⟩
+
 /-- `C10.evalD_WF` extends to expressions that contain aggregations. -/
-theorem aggr_ExtWF (spec : AggSpec) (d : DExpr) (h : C10.ExtWF d) : C10.ExtWF (.app1 (aggr spec) d) :=
-  ⟨h, fun x r hx hr => aggr_WF spec x r hx hr⟩
+theorem aggr_ExtWF (spec : AggSpec) (d : DExpr) (h : C10.ExtWF d) :
+    C10.ExtWF (.app1 (aggr spec) d) ∧ C10.ExtWF (.app1 (aggrT spec) d) :=
+  ⟨⟨h, fun x r hx hr => aggr_WF spec x r hx hr⟩, ⟨h, fun x r hx hr => aggrT_WF spec x r hx hr⟩⟩
 
 /-- `C33.evalD_perm` extends to expressions that contain aggregations. -/
-theorem aggr_ExtPerm (spec : AggSpec) (d : DExpr) (h : C33.ExtPerm d) : C33.ExtPerm (.app1 (aggr spec) d) :=
-  ⟨h, fun x y hx hxy => aggr_perm spec x y hx hxy⟩
+theorem aggr_ExtPerm (spec : AggSpec) (d : DExpr) (h : C33.ExtPerm d) :
+    C33.ExtPerm (.app1 (aggr spec) d) ∧ C33.ExtPerm (.app1 (aggrT spec) d) :=
+  ⟨⟨h, fun x y hx hxy => aggr_perm spec x y hx hxy⟩, ⟨h, fun x y hx hxy => aggrT_perm spec x y hx hxy⟩⟩
 
 /-- the tag on `stddev_*`: the model value of a standard deviation is the exact variance (the harness squares
 the engine's value before comparing; no floating point and no square root in the model). -/
@@ -176,6 +256,12 @@ def clause : AggSpec :=
    some ([⟨"h", .avg, .expr (.col "Me_1"), false⟩], .bin .gt (.col "h") (.const (.int 3)))⟩
 example : aggr clause ds = .ok ⟨["Id_1"], ["Me_2", "Me_3"], [[("Id_1", .int 2), ("Me_2", .num (13/2)), ("Me_3", .int 2)]]⟩ := by
   decide +kernel
+-- group all time_agg("A"): quarters and months of one year fall into one group per remaining identifier
+def trow (i : Int) (p : String) (m : Int) : Row := [("Id_1", .int i), ("Id_t", .str p), ("Me_1", .int m)]
+def tds : DS := ⟨["Id_1", "Id_t"], ["Me_1"], [trow 1 "2020Q1" 1, trow 1 "2020-Q2" 2, trow 1 "2021Q1" 4, trow 2 "2020M03" 8]⟩
+example : aggrT ⟨.all "Id_t", .each .sum, none⟩ tds =
+    .ok ⟨["Id_1", "Id_t"], ["Me_1"], [trow 1 "2020" 3, trow 1 "2021" 4, trow 2 "2020" 8]⟩ := by decide +kernel
+example : aggrT ⟨.all "Id_x", .each .sum, none⟩ tds = .error .type := by decide +kernel
 -- min / max of strings and booleans, integers stay integers
 example : aggVals .min [.str "b", .null, .str "B", .str "ab"] = .ok (.str "B") := by decide +kernel
 example : aggVals .max [.bool false, .bool true, .null] = .ok (.bool true) := by decide +kernel
